@@ -12,6 +12,7 @@ CONSTANTS
   Indents = {}
   Cap = 1
   AsBuilt = TRUE
+  Bounded = TRUE
   TrackMain = FALSE
   Obs <- ObsNone
 PROPERTY RefusedChangesNothing
